@@ -118,7 +118,13 @@ func (g *fgen) call(in ssa.CallInstruction, st *state) []val {
 		return g.applyContract(fc, callee, recv, args, st, pos, callee.Signature)
 	}
 	// no contract: inferred frame
-	ms := g.w.modsetOf(callee)
+	var ms *modset
+	if callee.Blocks == nil && g.w.isLibrary(callee) {
+		ms = g.w.libraryFrame(g.w.keygen(), callee, c.Args)
+		g.assum["library frame assumed for uncontracted "+callee.String()+" (writes only memory reachable from its arguments)"] = true
+	} else {
+		ms = g.w.modsetOf(callee)
+	}
 	g.applyModset(ms, st, callee.String())
 	return g.freshResults(callee.Signature, callee.Name(), st)
 }
